@@ -12,8 +12,11 @@ of one row, `Cfg.aggFinal` is `final_print` of the aggregate of the rows receive
 
 What is concrete.  Bytes, chunking, `read_until(b'\n')` (a line is complete at 0x0A, or at EOF with a
 non-empty buffer), the FIFO channel with capacity and disconnect in both directions, the
-`recv_timeout` loop, one write per row / one write at end of input, the `error:` line, and the
-panics (`read_until(..).unwrap()` lib.rs:283; `serde_json::to_writer(..).expect` printer.rs:249).
+`recv_timeout` loop, one write per row / one write at end of input, and the `error:` lines of the
+two fault paths: a failed write (renderer: `error: …`, receiver dropped) and a failed read (reader:
+`error: …`, leaves the read loop; /repo 566c084).  Every record printer returns write errors
+(JsonPrinter too since /repo 1b6cc1e), so no step of this model panics a thread; the `panicked`
+phases are kept so that "no thread panics" is a statement (`C17_no_panic`) rather than a convention.
 
 A run is a list of `Label`s; `next` is a partial function (`none` = the step is not enabled).
 Environment labels: `feed`, `eof`, `breakSink`, `readFail` (an I/O error on the input), and the
@@ -67,8 +70,6 @@ structure Cfg (σ ρ : Type) where
   agg : Bool
   /-- the single write of `render(.., last_row = true)`: `final_print` of the aggregate of the rows -/
   aggFinal : List ρ → Bytes
-  /-- `-o json` records: a failed write inside `to_writer` is `.expect`ed (printer.rs:249) -/
-  bodyPanics : Bool
   /-- channel capacity (`bounded(1000)`) -/
   cap : Nat
 
@@ -99,7 +100,7 @@ inductive RdPhase where
   | running    -- in the `read_until` loop
   | draining   -- past the read loop: drain loop, `drop(tx)`, waiting in `join`
   | done       -- `process` returned
-  | panicked   -- `read_until(..).unwrap()` on an `Err`
+  | panicked   -- the calling thread unwound (no step produces it; see `C17_no_panic`)
   deriving DecidableEq, Repr
 
 inductive TxState where
@@ -110,7 +111,7 @@ inductive RnPhase where
   | running    -- in the `recv_timeout` loop
   | final      -- aggregate only: saw `Disconnected`, about to write the final table
   | done       -- the thread function returned (receiver dropped)
-  | panicked   -- the thread unwound (receiver dropped)
+  | panicked   -- the thread unwound, receiver dropped (no step produces it; see `C17_no_panic`)
   deriving DecidableEq, Repr
 
 structure State (σ ρ : Type) where
@@ -138,8 +139,10 @@ structure State (σ ρ : Type) where
   written : Bytes := []
   /-- the consumer has gone away: every later write fails -/
   sinkBroken : Bool := false
-  /-- `error: …` lines printed by the renderer -/
+  /-- `error: …` lines printed by the renderer (write fault) -/
   errs : Nat := 0
+  /-- `error: …` lines printed by the reader (read fault) -/
+  rdErrs : Nat := 0
   /-- `join()` returned `Err` (the renderer thread panicked) -/
   joinErr : Bool := false
 
@@ -147,7 +150,7 @@ inductive Label where
   | feed (c : Bytes)      -- environment: more input bytes become readable
   | eof                   -- environment: end of input
   | breakSink             -- environment: the consumer closes the output
-  | readFail              -- environment: the next read returns an `io::Error`
+  | readFail              -- environment: the next read returns an `io::Error` (reader: error line, stop)
   | timeout               -- clock: `recv_timeout(50ms)` expires
   | absorb (n : Nat)      -- reader: `read_until` moves `n` newline-free bytes into its buffer
   | readLine              -- reader: a line is complete; decode, filter, pre-aggregate
@@ -192,19 +195,15 @@ def consume (c : Cfg σ ρ) (s : State σ ρ) (line : Line) (rest : Bytes) : Sta
   { s with inbuf := rest, carry := [], st := (c.step s.st line).1, outq := (c.step s.st line).2.toList,
            consumed := s.consumed ++ [line] }
 
-/-- does a failed write at offset `k` of the current payload hit `to_writer(..).expect`? -/
-def failPanics (c : Cfg σ ρ) (s : State σ ρ) (k : Nat) : Bool :=
-  match c.agg, s.cur with
-  | false, some r => c.bodyPanics && decide (k < (c.body r).length)
-  | _, _ => false
-
 def next (c : Cfg σ ρ) (s : State σ ρ) : Label → Option (State σ ρ)
   | .feed b => if s.eof then none else some { s with inbuf := s.inbuf ++ b, fed := s.fed ++ b }
   | .eof => if s.eof then none else some { s with eof := true }
   | .breakSink => some { s with sinkBroken := true }
   | .readFail =>
     match s.reader, s.outq with
-    | .running, [] => some { s with reader := .panicked, tx := .dropped }   -- unwinding drops `tx`
+    | .running, [] =>
+      -- `eprintln!("error: {}", e); break`: the partial line is dropped, the drain loop follows
+      some { s with reader := .draining, outq := c.drain s.st, rdErrs := s.rdErrs + 1 }
     | _, _ => none
   | .timeout =>
     match s.rend, s.cur, s.chan, s.tx with
@@ -277,12 +276,8 @@ def next (c : Cfg σ ρ) (s : State σ ρ) : Label → Option (State σ ρ)
     match payload c s with
     | some p =>
       if k < p.length ∧ (s.sinkBroken = true → k = 0) then
-        if failPanics c s k then
-          some { s with written := s.written ++ p.take k, cur := none, sinkBroken := true,
-                        rend := .panicked }
-        else
-          some { s with written := s.written ++ p.take k, cur := none, sinkBroken := true,
-                        rend := .done, errs := s.errs + 1 }
+        some { s with written := s.written ++ p.take k, cur := none, sinkBroken := true,
+                      rend := .done, errs := s.errs + 1 }
       else none
     | none => none
 
@@ -344,8 +339,8 @@ inductive Startup where
   /-- `main` returns `Err`: one `Error: …` line, exit status 1, nothing processed -/
   | cleanError
 
-/-- `File::open` fails on a missing path (clean error) but *succeeds* on a directory: the error
-then comes from the first read (`EISDIR`) and is unwrapped. -/
+/-- `File::open` fails on a missing path (clean error of `main`) but *succeeds* on a directory: the
+error then comes from the first read (`EISDIR`), i.e. a `readFail` at line 0. -/
 def startup : InputArg → Startup
   | .stdin | .file => .runs false
   | .missing => .cleanError
@@ -355,7 +350,7 @@ def startup : InputArg → Startup
 
 /-- rows are their own body bytes; the `i`-th processed line yields `table[i]`; `tail` rows come
 out of the drain loop -/
-def tableCfg (table : List (Option Bytes)) (tail : List Bytes) (agg json : Bool) (cap : Nat) :
+def tableCfg (table : List (Option Bytes)) (tail : List Bytes) (agg : Bool) (cap : Nat) :
     Cfg Nat Bytes :=
   { init := 0,
     step := fun i _ => (i + 1, (table.getD i none)),
@@ -363,7 +358,6 @@ def tableCfg (table : List (Option Bytes)) (tail : List Bytes) (agg json : Bool)
     body := id,
     agg := agg,
     aggFinal := fun rows => rows.flatMap (fun r => r ++ [10]),
-    bodyPanics := json,
     cap := cap }
 
 end Sched
